@@ -1,17 +1,11 @@
-import GoldModel.Model.Lint
+import GoldModel.Model.LintSpec
 /-!
-Helper lemmas for C15 / C16 (M-LINT):
+Helper lemmas for C15 / C16 (M-LINT), none of which depends on the generated tables:
 
 * `Machine.runFrom_append_reset` — a machine whose state is reported and reset by an action `a`
   runs a list cut at `a` piecewise (the fold homomorphism behind per-method independence);
-* `Method`, `lintAll` — a method = the visit of a procedure / function node followed by visits of
-  non-method nodes; `lintAll` = the request on the concatenation of the methods' visits;
-* `v2_perm` — the shared collector of the three annotated-tree visitors holds an interleaving
-  of their individual outputs;
-* `tracker_spec` — the name tracker (unused variables, unpurged byte arrays) against its
-  declarative description, for well-declared action lists;
-* `ih_spec` — the inherited checker against its declarative description;
-* `tracker_rename` — the tracker commutes with renamings that respect `norm`.
+* the per-analyzer homomorphisms at a method node;
+* `header_methods_join` — every list of visits is a header followed by methods.
 -/
 namespace Gold.Lint
 open Gold
@@ -63,26 +57,6 @@ theorem ih_resets (cfg : Cfg) (norm : String → String) (hr : cfg.ihResets = tr
     (ihMachine cfg norm).ResetsAt (.enter n r) := by
   intro s
   simp [ihMachine, ihStep, hr, ihCheck]
-
-/-! ### methods -/
-
-/-- the visits of one method: the procedure / function node, then nodes that are not methods
-    (its own subtree and whatever top-level declarations follow it before the next method) -/
-structure Method where
-  head : Ev
-  body : List Ev
-  hhead : isMethod head.node = true
-  hbody : ∀ e ∈ body, isMethod e.node = false
-
-def Method.evs (m : Method) : List Ev := m.head :: m.body
-
-/-- the analyzers' items for a file that consists of these methods -/
-def lintAll (cfg : Cfg) (norm : String → String) (ms : List Method) : List LDiag :=
-  lintEvents cfg norm (ms.flatMap Method.evs)
-
-/-- the analyzers' items for a file that consists of this method alone -/
-def lintMethod (cfg : Cfg) (norm : String → String) (m : Method) : List LDiag :=
-  lintEvents cfg norm m.evs
 
 /-! ### classification of method nodes -/
 
@@ -151,110 +125,7 @@ theorem rtRun_split (cfg : Cfg) (norm : String → String) (e₁ e₂ : List Ev)
 theorem nmRun_split (e₁ e₂ : List Ev) : nmRun (e₁ ++ e₂) = nmRun e₁ ++ nmRun e₂ := by
   simp [nmRun]
 
-/-! ### the shared collector is an interleaving -/
-
-/-- the registrations of `manager/mod.rs` are the analyzers this model describes (checked
-    against the generated table: a newly registered or removed analyzer breaks this lemma) -/
-theorem registered : E8.v1Analyzers = knownV1 ∧ E8.v2Analyzers = knownV2 := by decide
-
-theorem unmodelled_nil : unmodelled = [] := by decide
-
-theorem gate_v1 (n : String) (d : List LDiag) (h : knownV1.contains n = true) : gate E8.v1Analyzers n d = d := by
-  rw [registered.1]; unfold gate; rw [if_pos h]
-
-theorem gate_v2 (n : String) (d : List LDiag) (h : knownV2.contains n = true) : gate E8.v2Analyzers n d = d := by
-  rw [registered.2]; unfold gate; rw [if_pos h]
-
-theorem v2From_perm (cfg : Cfg) (norm : String → String) (su : List (String × TEntry Bool)) (si : ISt) (evs : List Ev) :
-    (v2From cfg norm su si evs).Perm
-      ((((upMachine cfg norm).runFrom su (evs.map (upAct cfg norm))).map (upRender cfg)) ++ nmRun evs ++
-        (((ihMachine cfg norm).runFrom si (evs.map (ihAct cfg norm))).map ihRender)) := by
-  induction evs generalizing su si with
-  | nil =>
-    simp only [v2From, List.map_nil, Machine.runFrom, nmRun, List.filterMap_nil, List.append_nil]
-    rw [gate_v2 _ _ (by decide), gate_v2 _ _ (by decide)]
-  | cons e rest ih =>
-    simp only [v2From, List.map_cons, Machine.runFrom, nmRun, List.filterMap_cons, List.map_append]
-    rw [gate_v2 _ _ (by decide), gate_v2 _ _ (by decide), gate_v2 _ _ (by decide)]
-    refine List.Perm.trans (List.Perm.append_left _ (ih _ _)) ?_
-    have := perm3 (((upMachine cfg norm).step su (upAct cfg norm e)).2.map (upRender cfg)) (nmOf e).toList
-      (((ihMachine cfg norm).step si (ihAct cfg norm e)).2.map ihRender)
-      (((upMachine cfg norm).runFrom ((upMachine cfg norm).step su (upAct cfg norm e)).1 (rest.map (upAct cfg norm))).map (upRender cfg))
-      (nmRun rest)
-      (((ihMachine cfg norm).runFrom ((ihMachine cfg norm).step si (ihAct cfg norm e)).1 (rest.map (ihAct cfg norm))).map ihRender)
-    refine List.Perm.trans this ?_
-    cases hn : nmOf e <;> simp [nmRun]
-
-theorem v2_root (cfg : Cfg) (norm : String → String) (evs : List Ev) :
-    v2 cfg norm (rootEv :: evs) = v2 cfg norm evs := by
-  have h1 : upAct cfg norm rootEv = .other := by
-    simp [upAct, rootEv, rootStub, isMethod, Tree.kind]
-  have h2 : ihAct cfg norm rootEv = .other := by
-    simp [ihAct, rootEv, rootStub, isMethod, Tree.kind]
-  have h3 : nmOf rootEv = none := by
-    simp [nmOf, rootEv, rootStub, Tree.kind]
-  simp [v2, v2From, h1, h2, h3, upMachine, tracker, trackerStep, ihMachine, ihStep, gate]
-
-/-- every item of a response comes from exactly one of the five analyzers -/
-theorem lintEvents_union (cfg : Cfg) (norm : String → String) (evs : List Ev) :
-    (lintEvents cfg norm evs).Perm
-      (uvRun cfg norm evs ++ rtRun cfg norm evs ++ upRun cfg norm evs ++ nmRun evs ++ ihRun cfg norm evs) := by
-  simp only [lintEvents, unmodelled_nil, List.map_nil, List.append_nil, v1, v2_root]
-  rw [gate_v1 _ _ (by decide), gate_v1 _ _ (by decide)]
-  have := v2From_perm cfg norm [] {} evs
-  simp only [List.append_assoc]
-  refine List.Perm.append_left _ (List.Perm.append_left _ ?_)
-  simpa [v2, upRun, ihRun, Machine.run, upMachine, ihMachine, tracker, List.append_assoc] using this
-
-theorem lintEvents_nil (cfg : Cfg) (norm : String → String) : lintEvents cfg norm [] = [] := by
-  have := (lintEvents_union cfg norm []).length_eq
-  simp [uvRun, uvRaw, rtRun, upRun, nmRun, ihRun, Machine.run, Machine.runFrom, tracker, report, upMachine,
-    ihMachine, ihCheck] at this
-  exact this
-
-/-- the fold homomorphism: a response computed on visits cut at a method node is the union of
-    the responses of the two pieces -/
-theorem lintEvents_split (cfg : Cfg) (norm : String → String)
-    (h1 : cfg.uv.resets = true) (h2 : cfg.up.resets = true) (h3 : cfg.ihResets = true)
-    (e₁ : List Ev) {h : Ev} (hh : isMethod h.node = true) (e₂ : List Ev) :
-    (lintEvents cfg norm (e₁ ++ h :: e₂)).Perm (lintEvents cfg norm e₁ ++ lintEvents cfg norm (h :: e₂)) := by
-  refine (lintEvents_union cfg norm _).trans ?_
-  refine List.Perm.trans ?_ (List.Perm.append (lintEvents_union cfg norm e₁) (lintEvents_union cfg norm (h :: e₂))).symm
-  rw [uvRun_split cfg norm h1 e₁ hh, upRun_split cfg norm h2 e₁ hh, ihRun_split cfg norm h3 e₁ hh,
-    rtRun_split, nmRun_split]
-  exact perm5 _ _ _ _ _ _ _ _ _ _
-
 /-! ### every list of visits is a header followed by methods -/
-
-theorem of_mem_takeWhile {α : Type} (p : α → Bool) (l : List α) (x : α) (h : x ∈ l.takeWhile p) : p x = true := by
-  induction l with
-  | nil => simp at h
-  | cons a rest ih =>
-    simp only [List.takeWhile_cons] at h
-    split at h
-    · rcases List.mem_cons.1 h with rfl | h
-      · assumption
-      · exact ih h
-    · simp at h
-
-/-- visits before the first method node (class header, constants, types, fields) -/
-def headerOf (evs : List Ev) : List Ev := evs.takeWhile (fun e => !isMethod e.node)
-
-def methodsFrom : List Ev → List Method
-  | [] => []
-  | e :: es =>
-    if h : isMethod e.node = true then
-      ⟨e, es.takeWhile (fun x => !isMethod x.node), h, fun x hx => by
-        have := of_mem_takeWhile _ _ _ hx
-        simpa using this⟩ :: methodsFrom (es.dropWhile (fun x => !isMethod x.node))
-    else methodsFrom es
-termination_by l => l.length
-decreasing_by
-  all_goals simp_wf
-  · exact Nat.lt_succ_of_le (List.dropWhile_sublist _).length_le
-
-/-- the methods of a list of visits -/
-def methodsOf (evs : List Ev) : List Method := methodsFrom (evs.dropWhile (fun e => !isMethod e.node))
 
 theorem methodsFrom_join (n : Nat) : ∀ (evs : List Ev), evs.length ≤ n →
     (∀ e, evs.head? = some e → isMethod e.node = true) →
